@@ -30,6 +30,10 @@ type Net struct {
 	onLog func(HubEvent)
 	// Latency is added to every delivered datagram (one way).
 	Latency time.Duration
+	// RatePPS > 0 models a link of limited capacity: datagrams towards one
+	// destination are spaced at least 1/RatePPS apart (they queue, in order).
+	RatePPS  int
+	nextFree map[string]time.Time
 }
 
 func New() *Net {
@@ -239,6 +243,18 @@ func (n *Net) send(from net.Addr, to net.Addr, b []byte) {
 	}
 	copies := 1 + dec.Dup
 	delay := n.Latency + dec.Delay
+	if n.RatePPS > 0 {
+		if n.nextFree == nil {
+			n.nextFree = map[string]time.Time{}
+		}
+		now := time.Now()
+		at := n.nextFree[d.To]
+		if at.Before(now) {
+			at = now
+		}
+		delay += at.Sub(now)
+		n.nextFree[d.To] = at.Add(time.Second / time.Duration(n.RatePPS))
+	}
 	if delay <= 0 {
 		for i := 0; i < copies; i++ {
 			n.deliverLocked(out)
